@@ -1308,6 +1308,18 @@ fn wdl_case(c: &mut Case, s: &WdlSpec, rng: &mut Rng) {
                 }
                 if *mk < 2 {
                     parsed.push(p);
+                } else {
+                    // load with the auto-detecting parser, save as the version the loaded file says it has (after C18-r3m1): the
+                    // version label may be any member of a family of versions with one layout, the saved bytes are the file
+                    match wdl_write(p.version, &p) {
+                        Ok(b) if b == a => c.count("wdl_autodetected_second_write_identical", 1),
+                        Ok(b) => {
+                            let at = first_diff(&a, &b);
+                            let chunk = walk(&a).ok().and_then(|ch| ch.iter().find(|x| at < x.2.end).map(|x| x.0.clone())).unwrap_or_else(|| "tail".into());
+                            c.violate(format!("wdl|second-write-differs|{chunk}|auto-detected-version|{era}"), format!("a {vname} file loaded with the auto-detecting parser reports version {:?}; saved as that version it differs from the file at byte {at} ({} vs {} bytes), in/after chunk {chunk}", p.version, a.len(), b.len()), s.desc());
+                        }
+                        Err(e) => c.violate(format!("wdl|second-write-failed|auto-detected-version|{era}"), format!("saving the auto-detected file as version {:?} failed: {e}", p.version), s.desc()),
+                    }
                 }
             }
         }
